@@ -80,7 +80,7 @@ var c17Paths = []string{
 	"f:compact-l1",
 	"g:shrink-back",
 	"h:vacuum-across",
-	"i:unseen-growth-filled-from-db",
+	"i:downtime-growth-app-checkpoint",
 }
 
 // c17Spec names one enumerated case; Ops (replay only) overrides the generator.
@@ -91,6 +91,7 @@ type c17Spec struct {
 	Target   string   `json:"target"`
 	Adj      int      `json:"adj"`
 	Ops      []string `json:"ops,omitempty"`
+	Fill     *c17Fill `json:"fill,omitempty"` // path j only: one direct call of the growth-fill loop
 }
 
 type c17Viol struct {
@@ -189,7 +190,7 @@ func (r *c17Runner) do(op string) {
 	name := c17OpName(op)
 	if o.Err != nil {
 		switch name {
-		case "S", "SW", "LC":
+		case "S", "SW", "LC", "NEW", "START", "CL":
 			r.fail("sync-failed", fmt.Sprintf("%s: %v", op, o.Err))
 		case "SNAP":
 			r.fail("snapshot-failed", fmt.Sprintf("%s: %v", op, o.Err))
@@ -472,30 +473,21 @@ func (r *c17Runner) generate(sp c17Spec, T int) {
 		r.do("W1")
 		r.do("SW")
 	case "i":
-		// growth the WAL reader never saw: a transaction grows the database, the application checkpoints and
-		// truncates the WAL before litestream looks, the next (shorter) WAL is taken for the continuation of the
-		// fully synced one, and the pages between the previous and the new size are read from the database file
+		// litestream is killed, the application grows the database across the boundary, checkpoints (the pages
+		// now live in the database file) and restarts the WAL; a new litestream process must re-snapshot from
+		// the database file plus the new WAL
 		r.do("SW")
 		r.do("WN:3")
 		r.do("SW")
-		if base := min(L-3, T-2); base > r.size() {
-			r.grow(base)
-			r.do("SW")
-		}
-		cur := r.size()
-		k := T - cur + sp.Adj
-		if cur < L && T > L {
-			k--
-		}
-		if k >= 1 {
-			r.do("WN:" + strconv.Itoa(k))
-			r.do("CK:TRUNCATE")
-			r.do("U")
-		} else {
-			r.res.Unreachable = fmt.Sprintf("database already has %d pages after litestream's first sync", cur)
-		}
+		r.do("KILL")
+		r.grow(T + sp.Adj)
+		r.do("CK:RESTART")
+		r.do("U")
+		r.do("NEW")
 		r.do("SW")
 		r.mark()
+		r.do("WN:2")
+		r.do("SW")
 	default:
 		r.harness("unknown path " + sp.Path)
 	}
@@ -775,6 +767,43 @@ func c17(args []string) int {
 			}
 		}
 	}
+	// ---- layer 2: direct enumeration of the growth-fill loop ----------------------------------------------
+	fillDir := filepath.Join(scn.ScratchRoot, fmt.Sprintf("lsmc-%d", os.Getpid()), "c17fill")
+	fillCases, fillSpanning := 0, 0
+	fillClasses := map[string]bool{}
+	var fillSamples []string
+	for _, ps := range c17PageSizes {
+		for _, fc := range c17FillCases(ps, c17Lock(ps)) {
+			v, err := c17FillRun(fillDir, fc, false)
+			if err != nil {
+				fmt.Fprintln(os.Stderr, "c17: harness error: growth-fill case:", err)
+				return 2
+			}
+			fillCases++
+			evaluations++
+			if v != nil {
+				nViol++
+				fc := fc
+				rep.Report(&ev.Violation{Kind: v.Kind, Signature: c17FillSignature(v, fc), Detail: c17Detail{
+					c17Spec: c17Spec{PageSize: ps, AV: "-", Path: "j:growth-fill-direct", Target: c17Class(int(fc.Commit), fc.Lock), Fill: &fc},
+					LockPgno: fc.Lock, Message: v.Msg,
+					Geometry: fmt.Sprintf("scaled: pending byte 0x%x in ltx", c17ScaledPending),
+				}})
+				continue
+			}
+			if int(fc.PrevCommit) < fc.Lock && int(fc.Commit) > fc.Lock {
+				fillSpanning++
+				k := fmt.Sprintf("%d|%s|j:growth-fill-direct/%s/from-%s|-", ps, c17Class(int(fc.Commit), fc.Lock), fc.Pattern, c17Class(int(fc.PrevCommit), fc.Lock))
+				nontrivial[k] = true
+				fillClasses[k] = true
+				if ps == 4096 && len(fillSamples) < 4 {
+					fillSamples = append(fillSamples, fmt.Sprintf("ps=%d j:growth-fill-direct: lock page %d, prevCommit=%d commit=%d, pages in WAL %v (%s) => pages (prevCommit,commit] minus lock page, WAL content over database-file content", ps, fc.Lock, fc.PrevCommit, fc.Commit, fc.WALPages, fc.Pattern))
+				}
+			}
+		}
+	}
+	os.RemoveAll(fillDir)
+
 	var achieved []string
 	var cks []comboKey
 	for k := range combos {
@@ -832,6 +861,9 @@ func c17(args []string) int {
 		seenSample[res.Spec.Path], seenSample[k] = true, true
 		samples = append(samples, fmt.Sprintf("ps=%d av=%s %s target=%s: lock page %d, %d pages at target (%s), %d at end; ops: %s", res.Spec.PageSize, res.Spec.AV, res.Spec.Path, res.Spec.Target, res.Lock, res.MarkedPages, res.Class, res.FinalPages, strings.Join(res.Ops, " ")))
 	}
+	for _, x := range fillSamples {
+		samples = append(samples, x)
+	}
 	if len(samples) == 0 {
 		samples = append(samples, "no passing scenario (see violations)")
 	}
@@ -842,7 +874,8 @@ func c17(args []string) int {
 		"rule": "scaled geometry (lock byte at 0x10000 in SQLite, ltx and litestream's lock offsets): every page size 512..65536 x target size {lock-2, lock-1, lock, lock+1, lock+3} pages x auto_vacuum {NONE, INCREMENTAL} x path {" + strings.Join(c17Paths, ", ") + "}; " +
 			"rows are added until the target size is reached (a scenario that misses it is regenerated with corrected growth, at most 3 times; size 'lock' is unreachable because SQLite never ends a database on the lock page, the nearest size lock+1 is used); " +
 			"oracle after every litestream operation: no error, no LTX file at any level (replica and local staging) contains the lock page, full snapshots spanning it have commit-1 pages; after every acknowledged SW and every compaction: restore == source on every page (C01's _litestream_seq page carve-out), same size, lock page all zero in source and restore, integrity_check ok. " +
-			"evaluations = distinct (configuration, executed operation list) scenarios; distinct_nontrivial = distinct (page size, size class at target, path, auto_vacuum) combinations whose scenario had the lock page strictly inside the committed range at an oracle point",
+			"Layer 2 (path j:growth-fill-direct): DB.writeLTXFromWAL called directly on synthetic database/WAL files for every page size x prevCommit in lock-3..lock+1 x commit up to lock+3 x {no / all / only the last / all but the last / every other} growth page present in the WAL; oracle: no error, output pages == WAL pages + (prevCommit,commit] minus the lock page, WAL content over database-file content. " +
+			"evaluations = distinct (configuration, executed operation list) scenarios + layer-2 calls; distinct_nontrivial = distinct (page size, size class at target, path, auto_vacuum) combinations whose scenario had the lock page strictly inside the committed range at an oracle point, plus distinct layer-2 (page size, prevCommit class, commit class, WAL pattern) whose fill range spans the lock page",
 		"samples":                              samples,
 		"exhaustive":                           !cut,
 		"enumerated_cases":                     enumerated,
@@ -857,12 +890,16 @@ func c17(args []string) int {
 		"ltx_files_spanning_lock_page":         ltxSpan,
 		"snapshot_files_spanning_lock_page":    snapSpan,
 		"scenarios_with_lock_page_inside":      insideList,
+		"growth_fill_direct_calls":             fillCases,
+		"growth_fill_direct_calls_spanning_lock_page": fillSpanning,
+		"growth_fill_direct_distinct_classes":  len(fillClasses),
 		"achieved_pagesize_path_sizeclass[av]": achieved,
 	}
 	assumptions := []string{
 		"scaled geometry: trusted base is that SQLite consults only its sqlite3PendingByte variable (set with SQLITE_TESTCTRL_PENDING_BYTE before any database is opened), ltx only its PENDING_BYTE constant (module copy with that one line changed) and litestream only ltx.LockPgno plus sqlitePendingByte in internal/lock_unix.go (build overlay, one line changed); litestream's db.go/replica.go/compactor code is compiled unmodified",
 		"guards: SQLite's pending byte reads back 0x10000; ltx.LockPgno(P) == 0x10000/P+1 for all eight page sizes; the source's lock page is all zero whenever it is inside the file (it would hold row payload if SQLite were not scaled); a run in which some page size never has the lock page inside the committed range is a harness error",
 		"file replica; monitors off; single database; no storage faults",
+		"end to end, the branch of writeLTXFromWAL that reads growth pages from the database file is reached only through the lock page (SQLite writes every other new page to the WAL and litestream re-snapshots when it may have missed frames); its contract is enumerated by direct calls (layer 2) through a wrapper added to the litestream package by a build overlay (new file, nothing in /repo changed)",
 		"the VFS read path (vfs.go) is not exercised",
 	}
 
@@ -917,6 +954,24 @@ func c17Replay(rep *ev.Reporter, path string) int {
 		return 2
 	}
 	sp := v.Detail.c17Spec
+	if sp.Fill != nil {
+		fc := *sp.Fill
+		dir := filepath.Join(scn.ScratchRoot, fmt.Sprintf("lsmc-%d", os.Getpid()), "c17fill")
+		defer os.RemoveAll(dir)
+		fv, err := c17FillRun(dir, fc, false)
+		fmt.Printf("replay j:growth-fill-direct ps=%d lock page %d prevCommit=%d commit=%d wal pages %v\n", fc.PageSize, fc.Lock, fc.PrevCommit, fc.Commit, fc.WALPages)
+		if err != nil {
+			fmt.Fprintln(os.Stderr, "c17: harness error:", err)
+			return 2
+		}
+		if fv == nil {
+			fmt.Println("replay: property held")
+			return 0
+		}
+		fmt.Printf("replay: %s: %s\n", fv.Kind, fv.Msg)
+		rep.Report(&ev.Violation{Kind: fv.Kind, Signature: c17FillSignature(fv, fc), Detail: v.Detail})
+		return rep.Finish()
+	}
 	res := c17Run(sp)
 	fmt.Printf("replay ps=%d av=%s path=%s lock page %d, ops: %s\n", sp.PageSize, sp.AV, sp.Path, res.Lock, strings.Join(res.Ops, " "))
 	if res.Harness != nil {
@@ -930,6 +985,151 @@ func c17Replay(rep *ev.Reporter, path string) int {
 	fmt.Printf("replay: %s: %s\n", res.Viol.Kind, res.Viol.Msg)
 	c17Report(rep, res)
 	return rep.Finish()
+}
+
+// ---------------------------------------------------------------------------------------------------------
+// Layer 2: the growth-fill loop of DB.writeLTXFromWAL, called directly.
+//
+// In sequential histories on a healthy tree every page of a growing transaction is in the WAL (SQLite writes all
+// of them, except the lock page), and litestream re-snapshots whenever it may have missed frames, so the branch
+// that reads growth pages from the database file is only reachable end to end through the lock page itself.
+// The loop's contract - "the file holds every page in (prevCommit, commit] except the lock page, WAL content
+// where the WAL has the page and database-file content otherwise" - is therefore enumerated by calling the
+// function on synthetic db/WAL files, like the repository's own unit test does for one case. The call goes
+// through litestream.VerifC17WriteLTXFromWAL, a wrapper in a file that tools/build_c17.sh adds to the package
+// with a build overlay (no file of /repo is changed).
+
+type c17Fill struct {
+	PageSize   int      `json:"page_size"`
+	Lock       int      `json:"lock_pgno"`
+	PrevCommit uint32   `json:"prev_commit"`
+	Commit     uint32   `json:"commit"`
+	WALPages   []uint32 `json:"wal_pages"`
+	Pattern    string   `json:"pattern"`
+}
+
+func c17FillPage(kind byte, pgno uint32, ps int) []byte {
+	b := bytes.Repeat([]byte{byte(pgno*7 + uint32(kind))}, ps)
+	b[0], b[1], b[2], b[3], b[4] = byte(pgno>>24), byte(pgno>>16), byte(pgno>>8), byte(pgno), kind
+	return b
+}
+
+// c17FillCases enumerates (prevCommit, commit, pages present in the WAL) around the lock page.
+func c17FillCases(ps, lock int) []c17Fill {
+	var out []c17Fill
+	for prev := lock - 3; prev <= lock+1; prev++ {
+		if prev < 1 || prev == lock {
+			continue
+		}
+		for commit := prev + 1; commit <= lock+3; commit++ {
+			if commit == lock {
+				continue
+			}
+			var g []uint32 // growth pages other than the lock page
+			for p := prev + 1; p <= commit; p++ {
+				if p != lock {
+					g = append(g, uint32(p))
+				}
+			}
+			pats := []struct {
+				name string
+				in   func(i int) bool
+			}{
+				{"no-growth-page-in-wal", func(i int) bool { return false }},
+				{"all-growth-pages-in-wal", func(i int) bool { return true }},
+				{"only-last-in-wal", func(i int) bool { return i == len(g)-1 }},
+				{"all-but-last-in-wal", func(i int) bool { return i != len(g)-1 }},
+				{"alternating", func(i int) bool { return i%2 == 1 }},
+			}
+			seen := map[string]bool{}
+			for _, pt := range pats {
+				wp := []uint32{1}
+				for i, p := range g {
+					if pt.in(i) {
+						wp = append(wp, p)
+					}
+				}
+				k := fmt.Sprint(wp)
+				if seen[k] {
+					continue
+				}
+				seen[k] = true
+				out = append(out, c17Fill{PageSize: ps, Lock: lock, PrevCommit: uint32(prev), Commit: uint32(commit), WALPages: wp, Pattern: pt.name})
+			}
+		}
+	}
+	return out
+}
+
+// c17FillRun builds the files (sparse: only the pages the loop may read are written; the file still has its
+// full size, which is what makes real 1 GiB offsets affordable), calls the function and checks the output.
+func c17FillRun(dir string, fc c17Fill, sparse bool) (*c17Viol, error) {
+	ps := fc.PageSize
+	if err := os.MkdirAll(dir, 0o755); err != nil {
+		return nil, err
+	}
+	dbf, err := os.CreateTemp(dir, "filldb-")
+	if err != nil {
+		return nil, err
+	}
+	defer func() { dbf.Close(); os.Remove(dbf.Name()) }()
+	if err := dbf.Truncate(int64(fc.Commit) * int64(ps)); err != nil {
+		return nil, err
+	}
+	first := uint32(1)
+	if sparse {
+		first = fc.PrevCommit
+	}
+	for p := first; p <= fc.Commit; p++ {
+		if int(p) == fc.Lock {
+			continue // SQLite never writes it
+		}
+		if _, err := dbf.WriteAt(c17FillPage('D', p, ps), int64(p-1)*int64(ps)); err != nil {
+			return nil, err
+		}
+	}
+	wf, err := os.CreateTemp(dir, "fillwal-")
+	if err != nil {
+		return nil, err
+	}
+	defer func() { wf.Close(); os.Remove(wf.Name()) }()
+	frame := int64(litestream.WALFrameHeaderSize + ps)
+	pageMap := map[uint32]int64{}
+	for i, p := range fc.WALPages {
+		off := int64(litestream.WALHeaderSize) + int64(i)*frame
+		pageMap[p] = off
+		if _, err := wf.WriteAt(c17FillPage('W', p, ps), off+litestream.WALFrameHeaderSize); err != nil {
+			return nil, err
+		}
+	}
+	var buf bytes.Buffer
+	if err := litestream.VerifC17WriteLTXFromWAL(context.Background(), dbf, wf, ps, fc.PrevCommit, fc.Commit, pageMap, &buf); err != nil {
+		return &c17Viol{"sync-failed", fmt.Sprintf("writeLTXFromWAL(prevCommit=%d, commit=%d, wal pages %v): %v", fc.PrevCommit, fc.Commit, fc.WALPages, err)}, nil
+	}
+	d, err := decodeLTX(buf.Bytes())
+	if err != nil {
+		return &c17Viol{"restore-differs", "output does not decode: " + err.Error()}, nil
+	}
+	if _, ok := d.Pages[uint32(fc.Lock)]; ok {
+		return &c17Viol{"lock-page-replicated", fmt.Sprintf("output contains page %d, the lock page for page size %d", fc.Lock, ps)}, nil
+	}
+	want := map[uint32][]byte{}
+	for p := fc.PrevCommit + 1; p <= fc.Commit; p++ {
+		if int(p) != fc.Lock {
+			want[p] = c17FillPage('D', p, ps)
+		}
+	}
+	for _, p := range fc.WALPages {
+		want[p] = c17FillPage('W', p, ps)
+	}
+	if diff := pagesEqual(want, d.Pages, 0); diff != "" {
+		return &c17Viol{"restore-differs", fmt.Sprintf("writeLTXFromWAL(prevCommit=%d, commit=%d, lock page %d, wal pages %v): %s (a page absent from the file is absent from every restore through it)", fc.PrevCommit, fc.Commit, fc.Lock, fc.WALPages, diff)}, nil
+	}
+	return nil, nil
+}
+
+func c17FillSignature(v *c17Viol, fc c17Fill) string {
+	return fmt.Sprintf("%s|ps%d|%s|j:growth-fill-direct|av=-", v.Kind, fc.PageSize, c17Class(int(fc.Commit), fc.Lock))
 }
 
 // ---------------------------------------------------------------------------------------------------------
@@ -1007,6 +1207,29 @@ func c17real(args []string) int {
 		return harness(fmt.Sprintf("ltx.LockPgno(65536) = %d", lock))
 	}
 	out["lock_pgno"] = lock
+	// layer 2 at the real offsets, all page sizes (sparse database files of 1 GiB + a few pages)
+	fillDir := filepath.Join(scn.ScratchRoot, fmt.Sprintf("lsmc-%d", os.Getpid()), "c17fill")
+	nFill := 0
+	for _, p := range c17PageSizes {
+		lk := int(ltx.LockPgno(uint32(p)))
+		if lk != c17RealPending/p+1 {
+			return harness(fmt.Sprintf("ltx.LockPgno(%d) = %d", p, lk))
+		}
+		for _, fc := range c17FillCases(p, lk) {
+			v, err := c17FillRun(fillDir, fc, true)
+			if err != nil {
+				return harness("growth-fill case: " + err.Error())
+			}
+			nFill++
+			if v != nil {
+				out["fill"] = fc
+				os.RemoveAll(fillDir)
+				return viol(v.Kind, v.Msg)
+			}
+		}
+	}
+	os.RemoveAll(fillDir)
+	out["growth_fill_direct_calls_real_offsets"] = nFill
 	cfg := cfgWith(func(c *scn.Config) {
 		c.PageSize = ps
 		c.MinCheckpointPageN = 1 << 30 // no litestream-initiated checkpoints: the operations below are the only ones
